@@ -92,6 +92,10 @@ pub enum Op {
 	/// perform the next legal protocol step of a live slate (lock -> deliver -> finalize -> post)
 	Step { s: u16 },
 	Scan { w: u16, start: u16, delete_unconfirmed: bool },
+	/// time passes: the whole mempool is mined, then 51 + n%6 empty blocks to nobody, then every wallet refreshes
+	/// its active account (what the background updater would have done meanwhile). Reaches the ">50 blocks old"
+	/// housekeeping of the refresh with transactions still pending.
+	LongWait { n: u8 },
 }
 
 #[derive(Clone, Debug, PartialEq, Eq)]
@@ -136,6 +140,9 @@ pub struct SlateRec {
 	pub ttl_cutoff: Option<u64>,
 	pub tx: Option<Transaction>,
 	pub rejected_by_chain: Option<String>,
+	/// how often a `Step` on this record failed while the node was reachable (generator density only: `Step`
+	/// prefers records that can still make progress; the explicit ops still address every record)
+	pub step_failures: u8,
 }
 
 impl SlateRec {
@@ -498,6 +505,7 @@ impl Sim {
 			ttl_cutoff: cutoff,
 			tx: None,
 			rejected_by_chain: None,
+			step_failures: 0,
 		});
 		Ok(self.slates.len() - 1)
 	}
@@ -697,6 +705,7 @@ impl Sim {
 			ttl_cutoff: None,
 			tx: None,
 			rejected_by_chain: None,
+			step_failures: 0,
 		});
 		Ok(self.slates.len() - 1)
 	}
@@ -1024,7 +1033,8 @@ impl Sim {
 				}
 			}
 			Op::Step { s } => {
-				match self.pick_slate(*s, |r| !r.is_cancelled() && !r.posted) {
+				let fresh = self.pick_slate(*s, |r| !r.is_cancelled() && !r.posted && r.step_failures < 2);
+				match fresh.or_else(|| self.pick_slate(*s, |r| !r.is_cancelled() && !r.posted)) {
 					None => {
 						// nothing in flight: start a default send from a wallet chosen by `s`
 						let w = idx(*s, nw);
@@ -1061,6 +1071,9 @@ impl Sim {
 							(Flow::Invoice, Stage::Replied) => ("finalize-invoice", self.finalize_invoice(si)),
 							_ => ("step-none", Ok(())),
 						};
+						if r.is_err() && !self.node_down && self.world.node.with(|n| !n.down && n.down_after.is_none()) {
+							self.slates[si].step_failures = self.slates[si].step_failures.saturating_add(1);
+						}
 						let wallet = match kind {
 							"deliver" => self.slates[si].responder,
 							"pay-invoice" => self.slates[si].responder,
@@ -1127,6 +1140,32 @@ impl Sim {
 					result: Some(r),
 					slate: None,
 					wallet: Some(w),
+				}
+			}
+			Op::LongWait { n } => {
+				if self.node_down {
+					OpOutcome::noop("long-wait")
+				} else {
+					let mut r: Result<(), String> = Ok(());
+					for k in 0..(51 + (*n as usize % 6)) {
+						if let Err(e) = self.mine(None, if k == 0 { 0xffff } else { 0 }) {
+							r = Err(e);
+							break;
+						}
+					}
+					if r.is_ok() {
+						for w in 0..nw {
+							// a flaky node may make this refresh report "not updated": that is an outcome, not an error
+							let _ = self.refresh(w);
+						}
+					}
+					OpOutcome {
+						effective: true,
+						kind: "long-wait".into(),
+						result: Some(r),
+						slate: None,
+						wallet: None,
+					}
 				}
 			}
 			Op::Restart { w } => {
